@@ -49,6 +49,29 @@ func (vc *VC) typeOf(e ast.Expr) types.Type {
 	if t == nil {
 		panic(unsupported("no type for expression at %s", vc.prog.pos(e.Pos())))
 	}
+	return vc.ts(t)
+}
+
+// ts applies the type-parameter substitution of the generic function bodies currently being inlined
+// (Group[K, Loaded[V]].Do inlined into LoadingStore.Get: V of Group stands for the struct Loaded[V]).
+func (vc *VC) ts(t types.Type) types.Type {
+	for i := 0; i < 8; i++ {
+		tp, ok := t.(*types.TypeParam)
+		if !ok {
+			return t
+		}
+		found := false
+		for j := len(vc.tsubst) - 1; j >= 0; j-- {
+			if r, ok := vc.tsubst[j][tp]; ok {
+				t = r
+				found = true
+				break
+			}
+		}
+		if !found {
+			return t
+		}
+	}
 	return t
 }
 
@@ -95,6 +118,7 @@ func (vc *VC) loadPlace(st *State, p place) Val {
 var nonNilGlobals = map[string]bool{"internal.VersionMismatch": true, "internal.ErrCacheClosed": true, "internal.errGoexit": true}
 
 func (vc *VC) loadTyped(st *State, p place, t types.Type, sub string) Val {
+	t = vc.ts(t)
 	switch classify(t) {
 	case kStruct:
 		stt := t.Underlying().(*types.Struct)
@@ -188,6 +212,7 @@ func (vc *VC) storePlace(st *State, p place, v Val) {
 }
 
 func (vc *VC) storeTyped(st *State, p place, t types.Type, sub string, v Val) {
+	t = vc.ts(t)
 	switch x := v.(type) {
 	case *StructV:
 		stt := t.Underlying().(*types.Struct)
